@@ -23,6 +23,21 @@ DIR_PIECES = ['YAML', 'TAG', 'FOO', ' ', '1', '.', '1.1', '1.2', '2.0', '!', '!!
               '%C3%A9', '99999999999999999999', '\n', '#c', 'a', '9' * 4301, '9' * 5000]
 TAG_PIECES = ['!', '<', '>', '%', '41', 'zz', 'C3', 'a', ' ', 'tag:', ',', '\n']
 LONG_DIGIT_DOCS = ['%YAML ' + '1' * 5000 + '.1\n---\n', '%YAML 1.' + '1' * 4301 + '\n---\n', '1' * 5000, '- ' + '1' * 4301 + ':30', '0x' + 'f' * 5000, '!!int ' + '7' * 5000, 'k: |' + '9' * 5000, '&' + '1' * 5000 + ' x', '--- >' + '1' * 4400]
+# implicit-resolver style regexes are run on every plain scalar: a long homogeneous run followed by a character that makes the
+# match fail is the classic trigger of exponential backtracking ("never hangs")
+BACKTRACK_UNITS = ['1', '0', '9', '1_', '_', '0x1', '0b1', '1:', ':1', '1.', '.1', '1e', 'e1', '+', '-', '2001-', '-01', '1 ', ' 1', 'a', 'y', 'n', 'o', 't', 'f', '~', '.', '<', '=', '0o',
+                   '1:3', '0 ', '1.5', '_1', '00', '12:', '9_9', ':59', '.5e', 'e+', '1e1']
+BACKTRACK_TAILS = ['x', ' x', ':', '.', '_', '-', '!', ' ', 'T', 'Z', ':x', '.x', 'e', 'ee', '+', '\n-']
+
+
+class _Hang(Exception):
+    pass
+
+
+def _alarm(signum, frame):
+    raise _Hang()
+
+
 HEX_TAILS = ['', '0', '00', '41', '004', '0041', '00000', '000041', '0000004', '00000041', 'D800', 'DFFF', 'FFFE',
              '00110000', '0010FFFF', '7FFFFFFF', '80000000', 'FFFFFFFF', 'zz', '0g', '0000D800', '0000FFFF', '00000000']
 
@@ -126,6 +141,7 @@ def plan(tier, seed):
     jobs += [('tag', tl, i) for i in range(len(TAG_PIECES))]
     jobs += [('nest', i) for i in range(NFAM)]
     jobs += [('longdigits',)]
+    jobs += [('backtrack', k) for k in range(len(BACKTRACK_UNITS))]
     return jobs
 
 
@@ -228,6 +244,29 @@ def run_job(job, T):
             run_input(T, 'long-digit-runs', c, s_)
             run_input(T, 'long-digit-runs', {'input': s_, 'via': 7}, s_, via=7)
         T.sample('long-digit-runs', {'input': s_[:40] + '...'})
+    elif kind == 'backtrack':
+        import signal, time
+        u = BACKTRACK_UNITS[job[1]]
+        old = signal.signal(signal.SIGALRM, _alarm)
+        try:
+            for n in (24, 32, 48, 64, 200):
+                for tail in BACKTRACK_TAILS:
+                    for frame in ('%s', '- %s', 'k: %s', '[%s]', '"%s"', "!!int %s", '&a %s'):
+                        doc = frame % (u * n + tail)
+                        c = {'input': doc}
+                        if T.trace: T.begin(c)
+                        signal.setitimer(signal.ITIMER_REAL, 5.0)
+                        t0 = time.time()
+                        try:
+                            run_input(T, 'backtracking', c, doc, apis=APIS[2:])
+                        except _Hang:
+                            T.violation('backtracking', 'hang', c, detail='input of %d characters (unit %r x %d + %r) took more than 5 s' % (len(doc), u, n, tail))
+                            break
+                        finally:
+                            signal.setitimer(signal.ITIMER_REAL, 0)
+        finally:
+            signal.signal(signal.SIGALRM, old)
+        T.sample('backtracking', {'input': doc})
     elif kind == 'nest':
         for n in (1, 2, 3, 10, 50, 100, 150):
             s = nest_family(job[1], n)
